@@ -243,7 +243,7 @@ def filter_stage(scratch, workers, sample, seed, globs):
 FILE_PROPS = {
     'src/bitboard.rs': ['C20', 'C01', 'C16'],
     'src/square.rs': ['C16', 'C13', 'C01', 'C06'],
-    'src/file.rs': ['C16', 'C13', 'C06'], 'src/rank.rs': ['C16', 'C13', 'C06'],
+    'src/file.rs': ['C16', 'C13', 'C12', 'C06'], 'src/rank.rs': ['C16', 'C13', 'C12', 'C06'],
     'src/color.rs': ['C16', 'C01', 'C02', 'C06'], 'src/piece.rs': ['C16', 'C13', 'C06', 'C12'],
     'src/castle_rights.rs': ['C16', 'C02', 'C06', 'C01', 'C08', 'C09'],
     'src/magic.rs': ['C15', 'C16', 'C01'], 'src/zobrist.rs': ['C08', 'C09', 'C03'],
